@@ -41,6 +41,11 @@ func getMapping(d dvid.Data, v dvid.VersionID) (*VCache, error) {
 	_, found := m.mappedVersions[v]
 	m.mappedVersionsMu.RUnlock()
 	if found {
+		// initToVersion enters a version into mappedVersions before it has read the version's
+		// mutation log (and those of its ancestors), holding m.mu until everything is loaded:
+		// wait for a load that is still running instead of mapping through a partial map.
+		m.mu.RLock()
+		m.mu.RUnlock()
 		return m, nil // we have already loaded this version and its ancestors
 	}
 	if err := m.initToVersion(d, v, true); err != nil {
